@@ -178,7 +178,8 @@ def run(rep, ctx):
                        'solang-parser; it is sampled here (parser_relation_failures), not proved',
                        'the model part (props/C17.v): detectors inspect locations only to return them or compare them for equality, and string '
                        'literals only by length; comments are not part of the tree',
-                       'a whole `pragma ...;` directive is one token: white space/comments inside it are not layout (known finding D14)']
+                       'a whole `pragma ...;` directive is one token for the lexer: comments inside it are the known finding D14 and are never inserted; '
+                       'white space between its sub-tokens IS varied (implementation level only: the model takes the pragma value as given)']
     found = False
     known = [k for k in vlib.known_findings() if k['kind'] == 'known' and k.get('property') == 'C17']
     # known finding D14
